@@ -126,13 +126,78 @@ func TestVerifHTTP(t *testing.T) {
 	client := &nethttp.Client{Timeout: 5 * time.Second,
 		CheckRedirect: func(*nethttp.Request, []*nethttp.Request) error { return nethttp.ErrUseLastResponse }}
 
-	srcLists := [][]string{nil, {"good", "oth/er"}, {"site.alpha", "b1/c2", "good"}}
+	srcLists := [][]string{nil, {"good", "oth/er"}, {"site.alpha", "b1/c2", "good"}, {"final", "good"}}
+	// a receiver WITHOUT a serve directory (dirs.serve has no default) serves nothing; the process's
+	// working directory is the receiver's home (the parent of stage, final, logs), as when it is started there
+	if wd, err := os.Getwd(); err == nil {
+		defer os.Chdir(wd)
+	}
+	os.Chdir(inner)
 	keyLists := [][]string{nil, {"k1", "k2"}}
+
+	// ---- what an authorised sender is told (C15): source "good" has a file that failed validation
+	// (answer 1) and one that is validated and held for a predecessor that never comes (answer 3) - both
+	// known from the receiver's memory only. Every later request, refused or not, leaves the answers alone.
+	putProbe := func(name, prev string, good bool) {
+		content := []byte("probe-content-" + name)
+		h := fmt.Sprintf("%x", md5.Sum(content))
+		if !good {
+			h = fmt.Sprintf("%x", md5.Sum([]byte("something else")))
+		}
+		meta, _ := json.Marshal([]map[string]interface{}{{"n": name, "r": "", "p": prev, "f": h, "t": fmt.Sprintf("%d+0", time.Now().Unix()), "s": len(content), "b": 0, "e": len(content)}})
+		req, _ := nethttp.NewRequest("PUT", base+"/data", bytes.NewReader(append(append([]byte{}, meta...), content...)))
+		req.Header.Set("X-STS-MetaLen", fmt.Sprint(len(meta)))
+		req.Header.Set("X-STS-SrcName", "good")
+		req.Header.Set("X-STS-Key", "k1")
+		if resp, err := client.Do(req); err == nil {
+			io.Copy(io.Discard, resp.Body)
+			resp.Body.Close()
+		}
+	}
+	told := func() string {
+		b, _ := json.Marshal([]map[string]interface{}{{"n": "probe/failed.dat", "t": time.Now().Unix()}, {"n": "probe/held.dat", "t": time.Now().Unix()}})
+		req, _ := nethttp.NewRequest("POST", base+"/validate", bytes.NewReader(b))
+		req.Header.Set("X-STS-SrcName", "good")
+		req.Header.Set("X-STS-Key", "k1")
+		resp, err := client.Do(req)
+		if err != nil {
+			return "error"
+		}
+		defer resp.Body.Close()
+		body, _ := io.ReadAll(resp.Body)
+		return fmt.Sprintf("%d %s", resp.StatusCode, body)
+	}
+	setProbes := func() string {
+		a.conf.Sources, a.conf.Keys = nil, nil
+		putProbe("probe/failed.dat", "", false)
+		putProbe("probe/held.dat", "probe/never.dat", true)
+		var t string
+		for i := 0; i < 100; i++ {
+			t = told()
+			if strings.Contains(t, ":1") && strings.Contains(t, ":3") {
+				break
+			}
+			time.Sleep(10 * time.Millisecond)
+		}
+		return t
+	}
+	toldBefore := setProbes()
+	if !(strings.Contains(toldBefore, ":1") && strings.Contains(toldBefore, ":3")) {
+		t.Fatalf("probe files not in the expected states: %s", toldBefore)
+	}
 
 	caseSeq := 0
 	run := func(c vhCase) {
 		a.conf.Sources = srcLists[c.srcsv]
 		a.conf.Keys = keyLists[c.keysv]
+		noServe := c.route == "sgetn" || c.route == "sdeln"
+		a.server.ServeDir = dirs.Serve
+		if noServe {
+			a.server.ServeDir = ""
+			// something delivered for another source
+			os.MkdirAll(filepath.Join(dirs.Final, "alpha"), 0o755)
+			os.WriteFile(filepath.Join(dirs.Final, "alpha", "data.txt"), []byte("delivered-alpha"), 0o644)
+		}
 		before := vhSnapshot(root, dirs.LogMsg)
 		// every request carries a version of its own: the receiver remembers what it delivered under a
 		// name, and an identical retransmission would be discarded instead of being put away
@@ -176,9 +241,9 @@ func TestVerifHTTP(t *testing.T) {
 			req, _ = nethttp.NewRequest("POST", base+"/validate", bytes.NewReader(b))
 		case "partials":
 			req, _ = nethttp.NewRequest("GET", base+"/partials?v=1", nil)
-		case "sget", "sdel":
+		case "sget", "sdel", "sgetn", "sdeln":
 			m := "GET"
-			if c.route == "sdel" {
+			if c.route == "sdel" || c.route == "sdeln" {
 				m = "DELETE"
 			}
 			u := &url.URL{Scheme: "http", Host: fmt.Sprintf("127.0.0.1:%d", port), Path: "/static/" + c.name}
@@ -186,7 +251,7 @@ func TestVerifHTTP(t *testing.T) {
 				u = &url.URL{Scheme: "http", Host: u.Host, Opaque: "//" + u.Host + "/static/" + c.name}
 			}
 			req, _ = nethttp.NewRequest(m, u.String(), nil)
-			if st, err := os.Stat(filepath.Join(dirs.Serve, c.source, c.name)); err == nil && c.source != "" {
+			if st, err := os.Stat(filepath.Join(dirs.Serve, c.source, c.name)); err == nil && c.source != "" && !noServe {
 				exists = 1
 				if st.IsDir() {
 					exists = 2
@@ -251,14 +316,28 @@ func TestVerifHTTP(t *testing.T) {
 		if status >= 200 && status < 300 {
 			for rel, content := range map[string]string{
 				filepath.Join(innerRel, "serve", "good", "file.txt"): "served", filepath.Join(innerRel, "serve", "good", "sub", "deep.txt"): "deep",
-				filepath.Join(innerRel, "serve", "other", "secret.txt"): "secret", "outside.txt": "outside", filepath.Join("mid", "sibling.txt"): "sibling"} {
+				filepath.Join(innerRel, "serve", "other", "secret.txt"): "secret", "outside.txt": "outside", filepath.Join("mid", "sibling.txt"): "sibling",
+				filepath.Join(innerRel, "final", "alpha", "data.txt"): "delivered-alpha", filepath.Join(innerRel, "final", "alpha", "data.txt") + "#name": "data.txt"} {
 				if bytes.Contains(respBody, []byte(content)) && !own(rel) {
 					disclosed = 1
 				}
 			}
 		}
-		fmt.Fprintf(w, "H %s %d %d %s %s %s %s %s %s %d = %d %d %d %d %d\n", c.route, c.srcsv, c.keysv, gen.Hex(c.source), gen.Hex(c.key),
-			gen.Hex(c.name), gen.Hex(c.prev), gen.Hex(c.renamed), gen.Hex(c.sep), exists, status, outside, ch, foreign, disclosed)
+		// what the authorised sender of source "good" is told now (asked with every list switched off)
+		a.conf.Sources, a.conf.Keys = nil, nil
+		toldNow := told()
+		toldChanged := 0
+		if toldNow != toldBefore {
+			toldChanged = 1
+		}
+		fmt.Fprintf(w, "H %s %d %d %s %s %s %s %s %s %d = %d %d %d %d %d %d\n", c.route, c.srcsv, c.keysv, gen.Hex(c.source), gen.Hex(c.key),
+			gen.Hex(c.name), gen.Hex(c.prev), gen.Hex(c.renamed), gen.Hex(c.sep), exists, status, outside, ch, foreign, disclosed, toldChanged)
+		if toldChanged == 1 {
+			toldBefore = setProbes()
+		}
+		if noServe {
+			os.RemoveAll(filepath.Join(dirs.Final, "alpha"))
+		}
 		// put back what a legitimate request removed / delivered, so that cases stay independent
 		if ch == 1 {
 			os.RemoveAll(filepath.Join(inner, "stage"))
@@ -276,7 +355,7 @@ func TestVerifHTTP(t *testing.T) {
 	frags := []string{"..", ".", "", "a", "b.dat", "sub", "file.txt", "%2e%2e", "..%2f", "x y"}
 	names := []string{"a.dat", "d/e.dat", "../esc.dat", "../../outside.txt", "../../../escaped", "/abs/olute", "a/../../up", "a/../b", "./c", "a//b", "d/./e",
 		"..", ".", "", "..\\..\\win", strings.Repeat("long/", 60) + "x", "sub/deep.txt", "file.txt", "%2e%2e/x"}
-	sources := []string{"good", "oth/er", "bad", "", "..", ".", "../..", "good/..", "Good", "go.d", "good\x00", "a*b", "other"}
+	sources := []string{"good", "oth/er", "bad", "", "..", ".", "../..", "good/..", "Good", "go.d", "good\x00", "a*b", "other", "final", "stage"}
 	keys := []string{"", "k1", "k2", "K1", "wrong", "good"}
 	routes := []string{"data", "recovery", "validate", "partials", "sget", "sdel"}
 
@@ -287,6 +366,20 @@ func TestVerifHTTP(t *testing.T) {
 				for kv := 0; kv < 2; kv++ {
 					for _, k := range []string{"", "k1", "wrong"} {
 						run(vhCase{route: rt, srcsv: sv, keysv: kv, source: src, key: k, name: "file.txt"})
+					}
+				}
+			}
+		}
+	}
+	// no serve directory configured: nothing is served, whatever directory the source name happens to be
+	// relative to the working directory
+	for _, rt := range []string{"sgetn", "sdeln"} {
+		for _, src := range []string{"final", "stage", "logs", "serve", "good", "alpha", "mid", "."} {
+			for _, sv := range []int{0, 1, 3} {
+				for _, n := range []string{"", "alpha/data.txt", "alpha", "data.txt", "file.txt", "good/file.txt", "in", "../final/alpha/data.txt"} {
+					run(vhCase{route: rt, srcsv: sv, keysv: 1, source: src, key: "k1", name: n})
+					if sv == 0 {
+						run(vhCase{route: rt, srcsv: sv, keysv: 0, source: src, name: n})
 					}
 				}
 			}
@@ -331,8 +424,8 @@ func TestVerifHTTP(t *testing.T) {
 	}
 	for c := 0; c < N; c++ {
 		r := r0.Sub(uint64(c))
-		rts := append([]string{"data2", "data3"}, routes...)
-		cs := vhCase{route: rts[r.Intn(len(rts))], srcsv: r.Intn(3), keysv: r.Intn(2),
+		rts := append([]string{"data2", "data3", "sgetn", "sdeln"}, routes...)
+		cs := vhCase{route: rts[r.Intn(len(rts))], srcsv: r.Intn(4), keysv: r.Intn(2),
 			source: sources[r.Intn(len(sources))], key: keys[r.Intn(len(keys))], name: mk(r)}
 		if r.Chance(1, 3) {
 			cs.prev = mk(r)
